@@ -144,6 +144,26 @@ pub trait DiagramRules<E: Edge, N: InnerNode<E>, T> {
     fn cofactor(tag: E::Tag, node: &N, n: usize) -> Borrowed<'_, E> {
         Self::cofactors(tag, node).nth(n).expect("out of range")
     }
+
+    /// Get the `n`-th cofactor of the function represented by `edge` with
+    /// respect to a level that `edge` skips, i.e., a level above the node
+    /// referenced by `edge`
+    ///
+    /// In most kinds of decision diagrams, a skipped level means that the
+    /// function does not depend on the respective variable, hence every
+    /// cofactor is `edge` itself (this is the default implementation). Diagram
+    /// kinds with a different reading of skipped levels (e.g., zero-suppressed
+    /// decision diagrams) need to override this method. It is used when
+    /// swapping levels during reordering.
+    #[inline]
+    fn cofactor_skipped<M: Manager<Edge = E, InnerNode = N, Terminal = T>>(
+        manager: &M,
+        edge: &E,
+        n: usize,
+    ) -> E {
+        let _ = n;
+        manager.clone_edge(edge)
+    }
 }
 
 /// Result of the attempt to create a new node
